@@ -41,6 +41,7 @@ type c08Batch struct {
 	HdrFirst   *int64   `json:"hdr_first,omitempty"` // inconsistent-header stream only
 	HdrMax     *int64   `json:"hdr_max,omitempty"`
 	Compressed bool     `json:"compressed,omitempty"` // attributes say gzip (payload opaque)
+	NegLod     bool     `json:"neg_lod,omitempty"`    // header lastOffsetDelta = -1 (inconsistent-header stream only)
 }
 type c08Seg struct {
 	Part     int32      `json:"part"`
@@ -121,6 +122,9 @@ func c08EncodeBatch(base int64, b c08Batch) []byte {
 	}
 	binary.BigEndian.PutUint16(out[21:23], attrs)
 	binary.BigEndian.PutUint32(out[23:27], uint32(len(b.Recs)-1))
+	if b.NegLod {
+		binary.BigEndian.PutUint32(out[23:27], 0xffffffff) // NewRecordBatchFromBytes rejects it
+	}
 	binary.BigEndian.PutUint64(out[27:35], uint64(hf))
 	binary.BigEndian.PutUint64(out[35:43], uint64(hm))
 	binary.BigEndian.PutUint64(out[43:51], 0xffffffffffffffff) // producer id -1
@@ -685,6 +689,9 @@ func c08Gen(r *vRand, inconsistent bool) c08Case {
 				}
 				if !inconsistent && r.Chance(4) {
 					bt.Compressed = true
+				}
+				if inconsistent && r.Chance(8) {
+					bt.NegLod = true
 				}
 				sg.Batches = append(sg.Batches, bt)
 			}
